@@ -531,10 +531,15 @@ theorem c10f_chain_empty_hop_witness :
     (match chain (fun _ => []) [some 0, some 1] 1 with | .noResult => true | _ => false) = true ∧
     flatChain (fun _ => []) [some 0, some 1] 1 = [] := by decide
 
-/-- witness (reachable from query text): stored type `T0`, pattern `-[:t0]->…-[:t0]->`: the flat
-plan matches both hops ignoring ASCII case, the factorized chain compares the second hop exactly -/
-theorem c10f_edge_type_case_witness :
-    qcaseRows 3 [(0, 1), (1, 2)] true false 2 = [] ∧
-    qcaseRows 3 [(0, 1), (1, 2)] true true 2 = [(0, 2)] := by decide
+/-- regression (fixed in 9e9ba35): stored type `T0`, pattern `-[:t0]->…-[:t0]->`: the old chain
+compared the second hop exactly and lost the path the flat plan finds -/
+theorem c10f_edge_type_case_old_witness :
+    qcaseRows 3 [(0, 1), (1, 2)] true (Old.laterHopOk true 2 true false) 2 = [] ∧
+    qcaseRows 3 [(0, 1), (1, 2)] true (laterHopOk true 2 true false) 2 = [(0, 2)] := by decide
+
+/-- the repaired comparison: factorized or flat, every hop matches the edge type the same way -/
+theorem c10f_edge_type_case_fixed (n : Nat) (edges : List (Nat × Nat)) (fact : Bool) (hops : Nat)
+    (ci exact : Bool) :
+    qcaseRows n edges ci (laterHopOk fact hops ci exact) hops = qcaseRows n edges ci ci hops := rfl
 
 end Grafeo.Fact
